@@ -365,4 +365,26 @@ theorem node_decorated_layer_input (b fb r : Bag) (h : b.loopbackWith fb = .ok r
     · rw [hctx]; exact .earlier hrev (.bag hn hby)
     · rw [hctx]; exact .later (.bag hc hedge)
 
+/-- **Node level: the decorated function returns the inverse applied to its arguments.**  An edge of `pipeline >> f` (an inverse field of a layer:
+a function edge) whose output is an output of the decorated graph computes there its function over whatever its argument nodes compute there -
+`node_decorated_layer_input` says what that is for the backward inputs (what `f` returned), `node_loopback_forward_unchanged` for the layer's own
+forward parameters (what they computed in the forward pass): together `inverse(f(forward fields), forward parameters)`. -/
+theorem node_decorated_field (b fb r : Bag) (h : b.loopbackWith fb = .ok r) :
+    ∃ state es, connectBags b fb = .ok state ∧ r.edges = state.edges ++ es ∧
+      ∀ (e : BEdge) (ts : List BTerm), e ∈ state.edges → e.edge ≠ .identity → e.out ∈ r.outputs → e.out ∉ r.inputs →
+        e.ins.length = ts.length → (∀ q ∈ e.ins.zip ts, BDen r q.1 q.2) → r.Field e.out.name (.node e.edge ts) := by
+  obtain ⟨state, outs, es, opt, nx, hst, _, _, he, _⟩ := loopback_shape b fb r h
+  refine ⟨state, es, hst, he, fun e ts hmem hk hout hni hlen hargs => ?_⟩
+  exact ⟨e.out, hout, rfl, .edge e hni (by rw [he]; exact List.mem_append.2 (Or.inl hmem)) rfl hk hlen hargs⟩
+
+/-- the inverse fields of the first layer are outputs of the decorated graph -/
+theorem node_decorated_outputs (b fb r : Bag) (h : b.loopbackWith fb = .ok r) :
+    ∃ state, connectBags b fb = .ok state ∧
+      ∀ (bi bo : List BNode) (inh : NameSet) (c : BCtx), state.ctx = .chain (.bag bi bo inh) c → ∀ n ∈ bo, n ∈ r.outputs := by
+  obtain ⟨state, outs, es, opt, nx, hst, hrev, ho, _, _⟩ := loopback_shape b fb r h
+  refine ⟨state, hst, fun bi bo inh c hctx n hn => ?_⟩
+  rw [hctx] at hrev
+  rw [ho]
+  exact reverse_chain_bag_outputs bi bo inh c _ _ _ _ _ _ hrev n hn
+
 end CM.C10
